@@ -32,7 +32,7 @@ TEXT_CELL = 'E2'      # holds "hello"
 RAISING_CELL = 'E3'   # holds =1/0: reading the cell fails
 HASH_TEXT_CELL = 'E4' # holds "#FF0000": a text, not one of Excel's error values
 EXCEL_ERRORS = ('#N/A', '#DIV/0!', '#VALUE!', '#REF!', '#NAME?', '#NUM!', '#NULL!')
-ASSIGN_VALUES = [1, 0, None, 5]   # None = leave blank (no override)
+ASSIGN_VALUES = [1, 0, None, 5, 1e-13, 0.0]   # None = leave blank (no override); a tiny number is non-zero, hence true; 0.0 is zero
 
 
 # expressions whose evaluation fails in different ways (the product signals them with different exception classes or
@@ -96,7 +96,9 @@ def f_left(e, args):
     if not isinstance(t, str) or t == '':
         raise F.OutOfDomain('LEFT of non-text')
     n = F.to_num(e.ev(args[1]))
-    return t[:n]
+    if isinstance(n, float) and n != int(n):
+        raise F.OutOfDomain('fractional count')
+    return t[:int(n)]
 
 
 def _fails(code):
@@ -265,7 +267,10 @@ def strategy():
     cond = st.one_of(ref, ref, ref,
                      st.tuples(st.sampled_from(['>', '=', '<>', '>=']), ref, st.sampled_from(['0', '1'])).map(
                          lambda t: ['bin', t[0], t[1], ['num', t[2]]]),
-                     st.sampled_from([['num', '0'], ['num', '1'], ['num', '2'], ['bool', True], ['bool', False]]))
+                     st.sampled_from([['num', '0'], ['num', '1'], ['num', '2'], ['bool', True], ['bool', False]]),
+                     # a zero is a zero however it is spelt, and a tiny number is not zero
+                     st.sampled_from([['num', '0.0'], ['num', '0.00'], ['num', '0e0'], ['num', '0.50'], ['num', '1e-15'], ['num', '2.5e-14'], ['num', '1e0'],
+                                      ['bin', '*', ['num', '1e-8'], ['num', '1e-8']], ['un', '-', ['num', '0.0']]]))
     fail = st.sampled_from([['bin', '/', ['num', '1'], ['num', '0']], ['ref', ERR_CELL], ['ref', RAISING_CELL]] * 2 + [['ref', c] for c in ERR_CELLS] + FAIL_CALLS)
     # a condition whose evaluation fails (it must not be touched once an earlier condition has decided)
     failcond = st.sampled_from([['bin', '>', ['bin', '/', ['num', '10'], ['num', '0']], ['num', '1']], ['bin', '>', ['ref', RAISING_CELL], ['num', '0']],
